@@ -102,6 +102,7 @@ func (ex *Exec) resetPath() {
 	ex.objSeq = 0
 	ex.pathUnknown = false
 	ex.auxVars = ex.auxVars[:0]
+	ex.asciiKnown = map[*Term]bool{}
 	// the literal index is rebuilt per path (a stale literal from a sibling
 	// path must never be taken as implied)
 	ex.pcLits = ex.pcLits[:0]
